@@ -242,6 +242,8 @@ def call_builtin(it, name, args, kwargs):
         if is_fp_term(v):
             return z3.And(z3.Not(z3.fpIsNaN(v)), z3.Not(z3.fpIsInf(v)))
         return True
+    if name == 'pow' and len(args) == 2:
+        return scalar_arith('**', args[0], args[1], fp)
     if name == 'exceeds':
         return it.compare(ast.Gt(), args[0], args[1])
     if name == 'below':
